@@ -242,7 +242,7 @@ def _leg(name, desc, quick, thorough, lens=None):
     return Leg(name, run=run,
                gen=lambda tier: case_strategy(desc, tier, lens),
                quick=quick, thorough=thorough, shards_quick=4,
-               shards_thorough=16, nt_floor=0.3,
+               shards_thorough=16, nt_floor=0.15,
                rule="(%s layout, old, new) triples biased to unaligned NDEF "
                     "TLV offsets and lengths on both sides of 254/255; every "
                     "cut point k=0..n of the write is read by a fresh reader "
